@@ -5,7 +5,8 @@ Model of the part of `Controller` that decides when a component OUTSIDE a DoWhil
 looped components (`stageS.name:ref` / `:loopref`, i.e. a placeholder) may be launched:
 
 * `WorkflowGraph` gives the consumer an edge from EVERY instantiated instance `stageS.k#name` of every
-  looped component it references, plus the producer of the CURRENT loop condition
+  looped component it references, plus the producer of the CURRENT loop condition at every parse (one parse per
+  instantiation, so the condition producers of all iterations so far)
   (`model/graph.py`: "Placeholder dependencies expand to *all* currently known instances of placeholder +
   the condition"); `Controller._comp_get_active_predecessors` keeps those predecessors that are not in
   `comp_done` and `_input_dependencies_satisfied` launches when none is left (`ready`).
@@ -61,9 +62,10 @@ def setPh (ph : Nat → Nat → Nat) (k n v : Nat) : Nat → Nat → Nat :=
 def Exists (L : Loop) (s : LS) (k n : Nat) : Prop := k ≤ s.cur ∧ n < L.n
 
 /-- `_input_dependencies_satisfied` for the consumer: every instance of every referenced looped component and the
-producer of the current condition are in `comp_done` -/
+producer of the condition of every iteration so far (the graph is parsed again at every instantiation and the edge
+from the then-current condition producer is added each time) are in `comp_done` -/
 def ready (L : Loop) (s : LS) : Bool :=
-  (List.range (s.cur + 1)).all (fun k => L.refs.all (fun n => n < L.n → s.ph k n = 3)) && s.ph s.cur L.cond = 3
+  (List.range (s.cur + 1)).all (fun k => L.refs.all (fun n => n < L.n → s.ph k n = 3) && s.ph k L.cond = 3)
 
 /-- the variant that skips the instances a later iteration has superseded -/
 def readyLatest (L : Loop) (s : LS) : Bool :=
